@@ -41,6 +41,18 @@ def spell_bound(rng, b_ns, e_ns, default_unit, style=None):
     return '[%s%s%s%s]' % (dec(b_ns, ub), ub, sep, dec(e_ns, ub)), style     # end inherits the unit of begin
 
 
+def period_alts(pns):
+    """the equivalent ways of giving a period of pns nanoseconds: an integer number of a smaller unit, or a float number of a larger
+    unit when that float denotes the period exactly (x * unit == pns in float arithmetic, e.g. 0.5 s, 0.25 s, 0.02 us)"""
+    alts = [(pns // U[u], u) for u in U if pns % U[u] == 0]
+    for u in U:
+        if pns % U[u]:
+            x = pns / U[u]
+            if x * U[u] == pns and Fraction(x * U[u]) == pns:
+                alts.append((x, u))
+    return alts
+
+
 def spelling(rng, f):
     """an equivalent spelling of every bound of f with explicit units / another default unit / a sampling period in another unit:
     {'spec': text, 'period': [p, unit, tol], 'unit': default unit}; None when f has no bounded operator"""
@@ -49,8 +61,7 @@ def spelling(rng, f):
     periods = [(1, 's'), (500, 'ms'), (250, 'ms'), (2, 's'), (100, 'us'), (1000, 'ms'), (20, 'ns'), (1, 'ms')]
     p, pu = rng.choice(periods)
     pns = p * U[pu]
-    alts = [(pns // U[u], u) for u in U if pns % U[u] == 0]
-    period = rng.choice(alts)
+    period = rng.choice(period_alts(pns))
     default_unit = rng.choice(list(U))
     text = fml.to_text(f, lambda b, e: spell_bound(rng, b * pns, e * pns, default_unit)[0])
     return {'spec': 'out = ' + text, 'period': [period[0], period[1], 0.1], 'unit': default_unit, 'fkey': fml.to_sx(f)}
@@ -60,7 +71,7 @@ class C08(Check):
     PID = 'C08'
     RULE = ('seeded random formulas with bounded operators; sampling period drawn from {1s, 500ms, 250ms, 2s, 100us, ...} and every bound (in samples) '
             'rewritten in several equivalent spellings (unit on both ends / only end / only begin / none with the default unit; units s, ms, us, ns; '
-            'period given in another unit); all spellings must give the result of the model with the bounds in samples, offline, online and (bounded future) '
+            'period given in another unit, also as a float such as 0.5 s); all spellings must give the result of the model with the bounds in samples, offline, online and (bounded future) '
             'after pastify; bounds that are not multiples of the period must raise RTAMTException; non-trivial = at least one bounded operator and one '
             'non-default spelling; distinct by (formula, spellings, period, data)')
 
@@ -84,8 +95,7 @@ class C08(Check):
             p, pu = rng.choice(periods)
             # equivalent way of giving the same period
             pns = p * U[pu]
-            alts = [(pns // U[u], u) for u in U if pns % U[u] == 0]
-            period = rng.choice(alts)
+            period = rng.choice(period_alts(pns))
             default_unit = rng.choice(list(U))
             n = rng.choice([1, 2, 4, 7, 10])
             cols = fml.gen_trace(rng, nv, n)
